@@ -82,7 +82,11 @@ func (s *SuffrageNodesStateValue) DecodeJSON(b []byte, enc encoder.Encoder) erro
 		return e.Wrap(err)
 	}
 
-	s.nodes = make([]base.SuffrageNodeStateValue, len(u.Nodes))
+	s.nodes = nil
+
+	if u.Nodes != nil { // NOTE null and [] are decoded to what they were encoded from
+		s.nodes = make([]base.SuffrageNodeStateValue, len(u.Nodes))
+	}
 
 	for i := range u.Nodes {
 		if err := encoder.Decode(enc, u.Nodes[i], &s.nodes[i]); err != nil {
@@ -159,7 +163,11 @@ func (s *SuffrageCandidatesStateValue) DecodeJSON(b []byte, enc encoder.Encoder)
 		return e.Wrap(err)
 	}
 
-	s.nodes = make([]base.SuffrageCandidateStateValue, len(u.Nodes))
+	s.nodes = nil
+
+	if u.Nodes != nil { // NOTE null and [] are decoded to what they were encoded from
+		s.nodes = make([]base.SuffrageCandidateStateValue, len(u.Nodes))
+	}
 
 	for i := range u.Nodes {
 		if err := encoder.Decode(enc, u.Nodes[i], &s.nodes[i]); err != nil {
